@@ -62,6 +62,9 @@ def opOfJson (j : Json) : R Op := do
   | "peek" => return .peekArea (← asNat (← idx j 1))
   | "name" => return .byName (← asNat (← idx j 1))
   | "within_regions" => return .withinRegions
+  | "set_cores" => do
+    let ops ← listOf annOpOfJson (← idx j 2)
+    return .setCores (← asNat (← idx j 1)) (GeneFn.coreProducts (GeneFn.run ops))
   | "has" => return .hasCds (← asNat (← idx j 1)) (← asNat (← idx j 2))
   | "index" => return .indexOf (← asNat (← idx j 1)) (← asNat (← idx j 2))
   | t => throw s!"bad op {t}"
@@ -249,6 +252,12 @@ def handle (j : Json) : R Json := do
                  ("ann", jArr (← (← arrF j "ops").filterMapM fun o => do
                     match ← asStr (← idx o 0) with
                     | "cds" => do let x ← annSpecOfJson (← idx o 1); pure (if x == Json.null then none else some x)
+                    | _ => pure none)),
+                 ("ann_rewrites", jArr (← (← arrF j "ops").filterMapM fun o => do
+                    match ← asStr (← idx o 0) with
+                    | "set_cores" => do
+                      let x ← annSpecOfJson (jObj [("id", ← idx o 1), ("ann", ← idx o 2)])
+                      pure (some x)
                     | _ => pure none)),
                  ("scope", toJson scope)]
   | _ => throw s!"C08: unknown case kind {f}"
